@@ -1,5 +1,5 @@
 (* non-vacuity for C03: two exons of one transcript give a derived transcript and gene spanning min..max *)
-From GV Require Import Base.Prelude Base.PyStr Model.Bins Model.DB Model.Parser Model.Import Model.GtfSpec.
+From GV Require Import Base.Prelude Base.PyStr Model.Bins Model.DB Model.Parser Model.Import Model.GtfSpec Proofs.C03Proofs Proofs.C03End.
 Open Scope Z_scope.
 Definition ex (s e : Z) : row := mkRow [] (U "chr1"%bs) (U "s"%bs) (U "exon"%bs) (Some s) (Some e) [46%N] [43%N] [46%N]
   [(GENE_ID, [U "G"%bs]); (TRANSCRIPT_ID, [U "T"%bs])] [] None.
@@ -8,3 +8,24 @@ Example C03_run : exists st, import_gtf (fun _ _ => None) gcfg SError [] (gtf_sp
   map (fun r => (r_id r, r_start r, r_end r)) (s_rows st) =
   [(U "exon_1"%bs, Some 50, Some 60); (U "exon_2"%bs, Some 10, Some 20); (U "T"%bs, Some 10, Some 60); (U "G"%bs, Some 10, Some 60)].
 Proof. eexists. split; [vm_compute; reflexivity|]. vm_compute. reflexivity. Qed.
+
+(* the hypotheses of C03_inference_appends / C03_transcript_inferred / C03_gene_inferred hold in the state reached by
+   importing two genes, three transcripts, interleaved lines *)
+Definition exl (g t : str) (s e : Z) : row := mkRow [] (U "chr1"%bs) (U "s"%bs) (U "exon"%bs) (Some s) (Some e) [46%N] [43%N] [46%N]
+  [(GENE_ID, [g]); (TRANSCRIPT_ID, [t])] [] None.
+Definition lines := [exl (U "G1"%bs) (U "T1"%bs) 50 60; exl (U "G2"%bs) (U "T3"%bs) 500 600; exl (U "G1"%bs) (U "T2"%bs) 5 70;
+                     exl (U "G1"%bs) (U "T1"%bs) 10 20].
+Definition populated : ist :=
+  match run_steps (step_gtf (fun _ _ => None) gcfg SError [] (gtf_spec gcfg)) lines empty_st with Ok st => st | Err _ => empty_st end.
+Example C03_end_to_end_inhabited : exists ds,
+  derive gcfg populated (tg_pairs gcfg populated) None = Ok ds /\
+  (forall d, In d ds -> derived_clean d = true) /\ NoDup (map (did gcfg) ds) /\
+  (forall d, In d ds -> has_id (did gcfg d) (s_rows populated) = false) /\ NoDup (map r_id (s_rows populated)) /\
+  length (tg_pairs gcfg populated) = 3%nat /\ length ds = 5%nat.
+Proof.
+  eexists. split; [vm_compute; reflexivity|].
+  split; [intros d Hd; repeat (destruct Hd as [Hd|Hd]; [subst d; vm_compute; reflexivity|]); destruct Hd|].
+  split; [vm_compute; repeat constructor; cbn; intuition discriminate|].
+  split; [intros d Hd; repeat (destruct Hd as [Hd|Hd]; [subst d; vm_compute; reflexivity|]); destruct Hd|].
+  split; [vm_compute; repeat constructor; cbn; intuition discriminate|]. split; vm_compute; reflexivity.
+Qed.
